@@ -41,6 +41,130 @@ NO_LOADER = {
 }
 
 
+def _ply_layout(run, ix, tb):
+    """R10: the PLY header declares, element by element, the scalar fields in the order and of the types the packed
+    record stores them - for every combination of the optional per-vertex / per-face blocks.  Decided on the containers
+    the exporter builds (sa/conteval.py): the list of header templates and the dtype list handed to numpy for each
+    element, evaluated for one configuration at a time without running anything."""
+    import itertools
+
+    from ..conteval import ContEval, Opaque, Undecided
+    run.rule("R10", "PLY export: for every combination of optional blocks (vertex normals, vertex colours, face colours) the properties declared under each "
+                    "`element` of the header are the fields of the record packed for it, in the same order and with the same scalar types "
+                    "(a reader cuts the bytes by the header)")
+    fi = ix.func("trimesh.exchange.ply:export_ply")
+    ply_types = tb.literal("trimesh.exchange.ply", "_dtypes") or {}
+    subject = fi.params[0] if fi.params else "mesh"
+    n = 0
+    for normal, vcol, fcol in itertools.product((False, True), repeat=3):
+        if vcol and fcol:
+            continue  # a visual is of one kind
+
+        def decide(t, _v=vcol, _f=fcol, _m=subject):
+            m_ = re.escape(_m)
+            table = [(rf"hasattr\({m_}, 'entities'\)", False), (rf"hasattr\({m_}, 'vertices'\)", True), (rf"hasattr\({m_}, 'faces'\)", True),
+                     (rf"hasattr\({m_}, 'visual'\)", True), (rf"{m_}\.visual\.kind == 'vertex'", _v), (rf"'vertex' == {m_}\.visual\.kind", _v),
+                     (rf"{m_}\.visual\.kind == 'face'", _f), (rf"'face' == {m_}\.visual\.kind", _f),
+                     (rf"{m_}\.visual\.kind != 'vertex'", not _v), (rf"{m_}\.visual\.kind != 'face'", not _f),
+                     (rf"len\({m_}\.visual\.vertex_colors\) == len\({m_}\.vertices\)", True),
+                     (rf"len\({m_}\.vertices\) == len\({m_}\.visual\.vertex_colors\)", True),
+                     (rf"len\({m_}\.visual\.face_colors\) == len\({m_}\.faces\)", True),
+                     (rf"len\({m_}\.(vertices|faces)\)( > 0)?", True), (rf"len\({m_}\.(vertices|faces)\) == 0", False)]
+            for p_, v_ in table:
+                if re.fullmatch(p_, t):
+                    return v_
+            return None
+
+        cfg = f"vertex_normal={normal}, vertex colours={vcol}, face colours={fcol}"
+        ev = ContEval(ix, decide=decide)
+        args = {subject: Opaque(subject), "encoding": "binary_little_endian"}
+        for p_ in fi.params[1:]:
+            if p_ == "vertex_normal":
+                args[p_] = normal
+            elif p_ == "include_attributes":
+                args[p_] = False
+        try:
+            ev.run(fi, args)
+        except Undecided as e:
+            run.instance("R10", fi.where, f"[{cfg}] export_ply depends on `{str(e)[:70]}` - NOT decided", True, nontrivial=False)
+            run.assume(f"export_ply [{cfg}]: container evaluation stopped at `{str(e)[:80]}`")
+            continue
+        env = ev.last_env
+        headers = [v for v in env.values() if isinstance(v, list) and v and all(isinstance(x, str) for x in v) and v[0].startswith("ply")]
+        records = [(a, kw.get("dtype")) for name, a, kw, r in ev.calls if name in ("numpy.zeros", "numpy.empty", "numpy.ones")
+                   and isinstance(kw.get("dtype"), list) and all(isinstance(x, tuple) and len(x) >= 2 and isinstance(x[1], str) for x in kw["dtype"])]
+        if len(headers) != 1 or not records:
+            run.instance("R10", fi.where, f"[{cfg}] header list / packed records not found ({len(headers)} header(s), {len(records)} record(s)) - NOT decided", True, nontrivial=False)
+            run.assume(f"export_ply [{cfg}]: header or records not in a recognised form")
+            continue
+        # header -> {element: [("scalar", code) | ("list", count code, item code)]}
+        elements, cur = [], None
+        bad_type = None
+        for line in "".join(headers[0]).splitlines():
+            w = line.split()
+            if w[:1] == ["element"] and len(w) >= 2:
+                cur = (w[1], [])
+                elements.append(cur)
+            elif w[:1] == ["property"] and cur is not None:
+                if w[1] == "list" and len(w) >= 5:
+                    cur[1].append(("list", ply_types.get(w[2]), ply_types.get(w[3])))
+                    bad_type = bad_type or next((x for x in w[2:4] if x not in ply_types), None)
+                elif len(w) >= 3:
+                    cur[1].append(("scalar", ply_types.get(w[1])))
+                    bad_type = bad_type or (w[1] if w[1] not in ply_types else None)
+        if bad_type:
+            run.instance("R10", fi.where, f"[{cfg}] header names the type `{bad_type}` that the PLY type table does not know", False)
+            run.violation("R10", fi.where, f"[{cfg}] the PLY header declares a property of type `{bad_type}` which the reader's type table cannot map",
+                          key=key_of("C08-R10", "ply-layout", "type", bad_type))
+            continue
+        # records matched to elements by what they are sized with, falling back to order
+        def of(elname):
+            word = {"vertex": "vertices", "face": "faces", "edge": "edges"}.get(elname, elname)
+            hit = [d for a, d in records if a and word in str(getattr(a[0], "text", a[0]))]
+            return hit[0] if len(hit) == 1 else None
+
+        for k, (elname, props) in enumerate(elements):
+            dt = of(elname) or (records[k][1] if len(records) == len(elements) else None)
+            if dt is None:
+                run.instance("R10", fi.where, f"[{cfg}] record packed for element `{elname}` not identified - NOT decided", True, nontrivial=False)
+                continue
+            fields = []
+            for fld in dt:
+                cnt = 1
+                if len(fld) > 2:
+                    sh = fld[2] if isinstance(fld[2], (tuple, list)) else (fld[2],)
+                    for x in sh:
+                        cnt *= x if isinstance(x, int) else 1
+                fields.append([fld[0], fld[1].lstrip("<>=|"), cnt])
+            want = [pr[1] if pr[0] == "scalar" else f"list {pr[1]} {pr[2]}" for pr in props]
+            got = [(c, k_) for _, c, k_ in fields]
+            ok, i = True, 0
+            for pr in props:
+                if pr[0] == "scalar":
+                    if i < len(fields) and fields[i][1] == pr[1] and fields[i][2] > 0:
+                        fields[i][2] -= 1
+                        if fields[i][2] == 0:
+                            i += 1
+                    else:
+                        ok = False
+                        break
+                else:
+                    if i + 1 < len(fields) and fields[i][1] == pr[1] and fields[i][2] == 1 and fields[i + 1][1] == pr[2]:
+                        i += 2
+                    else:
+                        ok = False
+                        break
+            ok = ok and i == len(fields)
+            n += 1
+            run.instance("R10", fi.where, f"[{cfg}] element {elname}: header {want} == record {got}", ok)
+            if not ok:
+                run.violation("R10", fi.where, f"[{cfg}] PLY element `{elname}`: the header declares {want} but the packed record is laid out as "
+                                               f"{[(nm, c, k_) for (nm, c, _), (_, k_) in zip(fields, got)] if False else [(f[0], g[0], g[1]) for f, g in zip(dt, got)]}: "
+                                               f"a reader that cuts the bytes by the header gets other fields' bytes",
+                              key=key_of("C08-R10", "ply-layout", elname, f"n{int(normal)}v{int(vcol)}f{int(fcol)}"))
+    run.floor("PLY element layouts compared", n, 6)
+
+
 def check(run):
     ix = Index(run.repo)
     ef = Effects(ix)
@@ -447,6 +571,7 @@ def check(run):
     run.floor("float format specs in text exporters", n9, 5)
 
     run.assume("element-by-element equality of reloaded data, precision, colour order and instance placement are values and are not decided")
+    _ply_layout(run, ix, tb)
     return {
         "explanation": "Interprocedural write-effect analysis of every exporter entry point (nothing rooted at the exported object is written); "
         "constant-table extraction of exporter / loader registries and of the PLY, glTF and DXF type tables (pairing, mutual inverses, "
